@@ -33,7 +33,8 @@ requests over an unencrypted link and calls `connectToServer` only while disconn
 theorem tls_required_no_secret_before_encrypted (cfg : Cfg) (hreq : cfg.tls = .required) (script : List Ev)
     (happ : Along appWaits (init cfg) script) :
     ∀ o ∈ (run (init cfg) script).2, o.clearOk :=
-  run_safe script (init cfg) hreq (init_inv cfg) happ
+  (Qx.C10.run_ginv_w script (init cfg) hreq
+    ⟨init_inv cfg, (by intro h; simp [init] at h), fun h => absurd (nc_of_not_connected (by simp [init])) h⟩ happ).1
 
 /-- In the words of the property (same hypotheses): nothing that carries the password, a digest of it or the token is ever
 written to an unencrypted wire. -/
@@ -43,6 +44,37 @@ theorem no_secret_in_clear (cfg : Cfg) (hreq : cfg.tls = .required) (script : Li
   intro k hk
   have h := tls_required_no_secret_before_encrypted cfg hreq script happ _ hk
   cases k <;> simp_all [Out.clearOk, Kind.preTlsOk, Kind.carriesSecret]
+
+/-- **Time.**  `tick` = the keep-alive interval elapses.  With TLS required, in every history (the server may stall at any point
+of the negotiation for any number of intervals), neither a keep-alive ping nor the `<r/>` that replaces it under stream
+management is ever written to an unencrypted link. -/
+theorem no_keepalive_before_encryption (cfg : Cfg) (hreq : cfg.tls = .required) (script : List Ev)
+    (happ : Along appWaits (init cfg) script) :
+    Out.sent .ping .clear ∉ (run (init cfg) script).2 ∧ Out.sent .smReq .clear ∉ (run (init cfg) script).2 := by
+  constructor <;> intro h <;>
+    have := tls_required_no_secret_before_encrypted cfg hreq script happ _ h <;>
+    simp [Out.clearOk, Kind.preTlsOk] at this
+
+/-- **The ping timer only runs inside a session** (any TLS mode, any history, no hypothesis): when time passes, something is
+written only if keep-alive is configured and a session is open (the timer is started by `connected`, stopped by
+`disconnected`); what is written is one ping, or one `<r/>` if stream management is on; the state does not change. -/
+theorem keepalive_only_in_session (cfg : Cfg) (script : List Ev) :
+    ((run (init cfg) script).1.sessionStarted = false ∨ cfg.keepAlive = false →
+      step (run (init cfg) script).1 .tick = ((run (init cfg) script).1, [])) ∧
+    (step (run (init cfg) script).1 .tick).1 = (run (init cfg) script).1 ∧
+    (∀ o ∈ (step (run (init cfg) script).1 .tick).2,
+      o = send (run (init cfg) script).1 .ping ∨ o = send (run (init cfg) script).1 .smReq) := by
+  have hcfg : (run (init cfg) script).1.cfg = cfg := by rw [run_cfg]; rfl
+  generalize (run (init cfg) script).1 = s at *
+  refine ⟨?_, ?_, ?_⟩
+  · intro h
+    have hp : s.pingArmed = false := by
+      rcases h with h | h
+      · simp [St.pingArmed, h]
+      · simp [St.pingArmed, hcfg, h]
+    simp [step, hp]
+  · simp only [step, sendPing]; (repeat' split) <;> rfl
+  · simp only [step, sendPing]; (repeat' split) <;> simp
 
 /-- former witness (c): right after the header, an `<iq type='get'>` carrying a jabber:iq:version query whose OWN namespace is
 not jabber:client (e.g. `<iq xmlns='urn:foo' …>`) -/
